@@ -135,21 +135,22 @@ func handleMGet(params internal.HandlerFuncParams) ([]byte, error) {
 
 	values := make(map[string]string)
 	for key, value := range params.GetValues(params.Context, keys.ReadKeys) {
-		if value == nil {
-			values[key] = ""
-			continue
+		// Keys that do not exist or do not hold a string, integer or float are reported as nil.
+		switch value.(type) {
+		case string, int, int64, float64:
+			values[key] = fmt.Sprintf("%v", value)
 		}
-		values[key] = fmt.Sprintf("%v", value)
 	}
 
 	bytes := []byte(fmt.Sprintf("*%d\r\n", len(params.Command[1:])))
 
 	for _, key := range params.Command[1:] {
-		if values[key] == "" {
+		value, ok := values[key]
+		if !ok {
 			bytes = append(bytes, []byte("$-1\r\n")...)
 			continue
 		}
-		bytes = append(bytes, []byte(fmt.Sprintf("$%d\r\n%s\r\n", len(values[key]), values[key]))...)
+		bytes = append(bytes, []byte(fmt.Sprintf("$%d\r\n%s\r\n", len(value), value))...)
 	}
 
 	return bytes, nil
